@@ -676,6 +676,25 @@ class ACCLoopTrans(ParallelLoopTrans):
         # Call the apply() method of the base class
         super().apply(node, options)
 
+    def validate(self, node, options=None):
+        '''
+        Perform validation checks before applying the transformation.
+
+        :param node: the node we are checking.
+        :type node: :py:class:`psyclone.psyir.nodes.Node`
+        :param options: a dictionary with options for transformations.
+        :type options: Optional[Dict[str, Any]]
+
+        :raises TransformationError: if the loop is already the target of \
+            an OpenACC loop directive.
+
+        '''
+        super().validate(node, options=options)
+        if node.parent and isinstance(node.parent.parent, ACCLoopDirective):
+            raise TransformationError(
+                f"Error in {self.name} transformation. The supplied loop "
+                f"already has an OpenACC loop directive applied to it.")
+
 
 class OMPParallelLoopTrans(OMPLoopTrans):
 
